@@ -2,6 +2,6 @@ From Coq Require Import Extraction ExtrOcamlBasic.
 From PV Require Import Base.IO PTG.PTGDefs PTGVal.ValEngine PTGVal.PTGValDefs.
 Extraction Language OCaml.
 (* coqc runs from coq/ (coq_makefile), so the path is relative to it *)
-Extraction "extracted/ptgval.ml" io_witness wf_program instances env_of complete nflows flow_src flow_reads flow_writes
+Extraction "extracted/ptgval.ml" io_witness wf_program wf_program_fm instances env_of complete nflows flow_src flow_reads flow_writes
   flow_wbs safeb reads_uninit ptg_seq_exec obs_reads obs_writes obs_data all_done again_count hash_instance body_hash
   topo_order preds succs.
